@@ -155,6 +155,34 @@ pub enum Variant {
     RtFilter,
     /// `#[emit::span(rt, "node {id}", id, en, trace_id: <explicit>)]` (C18: mismatched trace id in span props)
     ExplicitTrace(u128),
+    /// `#[emit::span(rt, ok_lvl: Level::Info, err_lvl: "warn", "node {id}", id, en)]` on a fn that
+    /// returns `Ok` / `Err`: the span ends through `complete_with`.
+    ResultAware { fail: bool },
+    /// `#[emit::span(rt, guard: g, "node {id}", id, en)]`, completed by hand at the end of the body.
+    Guard(GuardEnd),
+    /// `emit::new_span!(rt, [when: ..,] "node {id}", id[, en])`: the (guard, frame) pair is created
+    /// where the parent runs this step and the frame is entered as `travel` says; the guard is
+    /// dropped at the end of the body or completed with `complete_with(completion::default(..))`.
+    Manual { travel: Travel, when: bool, complete_with: bool },
+}
+
+#[derive(Clone, Debug, PartialEq, Eq, Hash)]
+pub enum GuardEnd {
+    Complete,
+    CompleteWith,
+}
+
+/// Where the frame of a `new_span!` pair is entered.
+#[derive(Clone, Debug, PartialEq, Eq, Hash)]
+pub enum Travel {
+    /// `frame.call(..)` right where it was created
+    Here,
+    /// `frame.in_fn(..)` handed to a new thread
+    Thread,
+    /// `frame.in_future(..)`: a task awaited / hand-polled among its siblings
+    Task,
+    /// `frame.call(..)` AFTER the span it was created in has ended
+    Deferred,
 }
 
 /// The form incoming ids are placed in the context with.
@@ -234,7 +262,7 @@ pub enum Via {
     /// `Frame::current(ctxt).in_fn(..)` handed to a new thread.
     Thread,
     /// `Frame::push(ctxt, props!{trace_id, span_id})`
-    Props { trace: u128, span: u64, form: IdForm },
+    Props { trace: u128, span: u64, parent: Option<u64>, form: IdForm },
     /// An incoming trace id without a usable span id; `handoff`: the child additionally runs on
     /// another thread through a `Frame::current(ctxt)` captured inside the pushed frame.
     TraceOnly { trace: u128, how: TraceOnly, handoff: bool },
@@ -245,6 +273,8 @@ pub enum Via {
     Header { spec: HeaderSpec, with_state: bool },
     /// A fresh thread under a header *formatted from* `Traceparent::current()` and parsed back.
     Remote,
+    /// `catch_unwind(|| child)`: the child's subtree ends in a scripted panic (`Node::unwinds`).
+    Catch,
 }
 
 #[derive(Clone, Debug, PartialEq, Eq, Hash)]
@@ -255,6 +285,8 @@ pub enum Step {
     Child { node: Node, via: Via },
     /// Async siblings polled interleaved (seeded schedule). Sync members are wrapped in a future.
     Group { nodes: Vec<Node>, sched: u64 },
+    /// `panic!(..)`; always the last step of a node that `unwinds`.
+    Panic,
 }
 
 #[derive(Clone, Debug, PartialEq, Eq, Hash)]
@@ -264,6 +296,8 @@ pub struct Node {
     pub is_async: bool,
     pub variant: Variant,
     pub steps: Vec<Step>,
+    /// The body does not return: its last step panics or is a child that unwinds.
+    pub unwinds: bool,
 }
 
 impl Node {
@@ -295,10 +329,13 @@ impl Node {
                 Variant::When => "when".to_string(),
                 Variant::RtFilter => "rt-filter".to_string(),
                 Variant::ExplicitTrace(t) => format!("explicit-trace:{:032x}", t),
+                other => format!("{:?}", other),
             },
+            "unwinds": self.unwinds,
             "steps": self.steps.iter().map(|s| match s {
                 Step::Event(e) => json!({"event": e}),
                 Step::Yield => json!("yield"),
+                Step::Panic => json!("panic"),
                 Step::Child { node, via } => json!({"via": format!("{:?}", via), "child": node.to_json()}),
                 Step::Group { nodes, sched } => json!({"group": nodes.iter().map(|n| n.to_json()).collect::<Vec<_>>(), "sched": sched}),
             }).collect::<Vec<_>>(),
@@ -308,18 +345,35 @@ impl Node {
     /// A structural signature (no ids / schedules): what "distinct shape" means in the evidence.
     pub fn shape(&self, out: &mut Vec<u8>) {
         out.push(b'(');
-        out.push(match self.variant {
+        out.push(match &self.variant {
             Variant::Top => b'T',
             Variant::When => b'w',
             Variant::RtFilter => b'r',
             Variant::ExplicitTrace(_) => b'x',
+            Variant::ResultAware { fail: false } => b'k',
+            Variant::ResultAware { fail: true } => b'E',
+            Variant::Guard(GuardEnd::Complete) => b'g',
+            Variant::Guard(GuardEnd::CompleteWith) => b'G',
+            Variant::Manual { travel, when, complete_with } => {
+                let t = match travel {
+                    Travel::Here => 0u8,
+                    Travel::Thread => 1,
+                    Travel::Task => 2,
+                    Travel::Deferred => 3,
+                };
+                0x80 + t * 4 + (*when as u8) * 2 + *complete_with as u8
+            }
         });
+        if self.unwinds {
+            out.push(b'!');
+        }
         out.push(if self.enabled { b'+' } else { b'-' });
         out.push(if self.is_async { b'a' } else { b's' });
         for s in &self.steps {
             match s {
                 Step::Event(_) => out.push(b'e'),
                 Step::Yield => out.push(b'y'),
+                Step::Panic => out.push(b'p'),
                 Step::Child { node, via } => {
                     out.push(match via {
                         Via::Direct => b'd',
@@ -365,6 +419,7 @@ impl Node {
                             (HeaderSpec::SameTrace { .. }, _) => b'M',
                         },
                         Via::Remote => b'R',
+                        Via::Catch => b'C',
                     });
                     node.shape(out);
                 }
@@ -408,6 +463,8 @@ struct Profile {
     p_explicit: u64,
     p_deeper: u64,
     p_plain: u64,
+    p_ending: u64,
+    p_catch: u64,
 }
 
 struct Gen<'a> {
@@ -436,6 +493,17 @@ fn rand_span(g: &mut Rng) -> u64 {
     }
 }
 
+/// Integers whose DECIMAL text has exactly as many digits as the id's hex text has characters.
+fn decimal_looking_trace(g: &mut Rng) -> u128 {
+    let p31 = 10u128.pow(31);
+    p31 + ((((g.next() as u128) << 64) | g.next() as u128) % (9 * p31))
+}
+
+fn decimal_looking_span(g: &mut Rng) -> u64 {
+    let p15 = 10u64.pow(15);
+    p15 + g.below(9 * p15)
+}
+
 fn rand_flags(g: &mut Rng, sampled: bool) -> u8 {
     let extra = if g.chance(1, 6) { (g.below(127) as u8) << 1 } else { 0 };
     extra | sampled as u8
@@ -447,7 +515,52 @@ impl<'a> Gen<'a> {
         self.next_eid
     }
 
-    fn node(&mut self, depth: u32, in_group: bool) -> Node {
+    /// A sync node whose body ends in a panic (directly, or through a child that does).
+    fn panic_chain(&mut self, depth: u32) -> Node {
+        self.next_id += 1;
+        let id = self.next_id;
+        let mut steps = self.steps(depth, false, false, false);
+        if depth < self.cfg.max_depth + 2 && self.g.chance(7, 16) {
+            let via = match self.g.below(4) {
+                0 => Via::Direct,
+                1 => Via::Plain { how: PlainHow::Call },
+                _ => {
+                    let sampled = self.g.bool();
+                    Via::Header {
+                        spec: match self.g.below(3) {
+                            0 => HeaderSpec::Invalid { flags: sampled as u8 },
+                            _ => HeaderSpec::Fresh {
+                                trace: rand_trace(self.g),
+                                span: rand_span(self.g),
+                                flags: sampled as u8,
+                            },
+                        },
+                        with_state: false,
+                    }
+                }
+            };
+            let node = self.panic_chain(depth + 1);
+            steps.push(Step::Child { node, via });
+        } else {
+            steps.push(Step::Panic);
+        }
+        Node {
+            id,
+            enabled: true,
+            is_async: false,
+            variant: if self.g.chance(1, 4) {
+                Variant::ResultAware { fail: false }
+            } else if self.g.chance(1, 4) {
+                Variant::Guard(GuardEnd::CompleteWith)
+            } else {
+                Variant::RtFilter
+            },
+            steps,
+            unwinds: true,
+        }
+    }
+
+    fn node(&mut self, depth: u32, in_group: bool, parent_takes_deferred: bool) -> Node {
         self.next_id += 1;
         let id = self.next_id;
         let tp = self.cfg.traceparent;
@@ -464,13 +577,57 @@ impl<'a> Gen<'a> {
         } else {
             Variant::RtFilter
         };
-        let steps = self.steps(depth, is_async, false);
+        // other ways for the span to end / to be created
+        let variant = if variant != Variant::RtFilter && variant != Variant::When || !self.g.chance(self.p.p_ending, 16) {
+            variant
+        } else {
+            match self.g.below(if tp { 5 } else { 8 }) {
+                0 => Variant::ResultAware { fail: false },
+                1 => Variant::ResultAware { fail: true },
+                2 => Variant::Guard(GuardEnd::Complete),
+                3 => Variant::Guard(GuardEnd::CompleteWith),
+                n => {
+                    let travel = if tp {
+                        // (the frame of a span is C04's subject; here only how the guard ends)
+                        if is_async && self.g.bool() {
+                            Travel::Task
+                        } else {
+                            Travel::Here
+                        }
+                    } else {
+                        match n {
+                            4 => Travel::Here,
+                            5 => Travel::Thread,
+                            6 if is_async => Travel::Task,
+                            _ if parent_takes_deferred && !in_group => Travel::Deferred,
+                            _ => Travel::Thread,
+                        }
+                    };
+                    Variant::Manual {
+                        travel,
+                        // a call-site `when:` bypasses the runtime filter (and so the sampler): not for C18
+                        when: !tp && self.g.bool(),
+                        complete_with: self.g.chance(1, 3),
+                    }
+                }
+            }
+        };
+        // (a deferred frame is entered by whoever ran its creator, on the creator's thread)
+        let takes_deferred = !matches!(
+            variant,
+            Variant::Manual {
+                travel: Travel::Deferred | Travel::Thread,
+                ..
+            }
+        );
+        let steps = self.steps(depth, is_async, false, takes_deferred);
         Node {
             id,
             enabled,
             is_async,
             variant,
             steps,
+            unwinds: false,
         }
     }
 
@@ -510,9 +667,7 @@ impl<'a> Gen<'a> {
                 return Via::Remote;
             }
         } else if top && g.chance(4, 16) {
-            return Via::TraceOnly {
-                trace: rand_trace(g),
-                how: match g.below(8) {
+            let how = match g.below(8) {
                     0 => TraceOnly::SpanCtxtPush,
                     1 => TraceOnly::Typed,
                     2 => TraceOnly::HexLower,
@@ -521,19 +676,30 @@ impl<'a> Gen<'a> {
                     5 => TraceOnly::TypedZeroSpanText,
                     6 => TraceOnly::HexGarbageSpanText,
                     _ => TraceOnly::IntZeroSpanInt,
-                },
+            };
+            return Via::TraceOnly {
+                trace: if how.decimal() && g.bool() { decimal_looking_trace(g) } else { rand_trace(g) },
+                how,
                 handoff: g.chance(1, 4),
             };
         } else if top && g.chance(7, 12) {
+            let form = match g.below(4) {
+                0 => IdForm::Typed,
+                1 => IdForm::HexLower,
+                2 => IdForm::HexUpper,
+                _ => IdForm::Int,
+            };
+            // integers that LOOK like hex ids when printed (16 / 32 decimal digits)
+            let looks = form == IdForm::Int && g.chance(5, 8);
             return Via::Props {
-                trace: rand_trace(g),
-                span: rand_span(g),
-                form: match g.below(4) {
-                    0 => IdForm::Typed,
-                    1 => IdForm::HexLower,
-                    2 => IdForm::HexUpper,
-                    _ => IdForm::Int,
+                trace: if looks { decimal_looking_trace(g) } else { rand_trace(g) },
+                span: if looks { decimal_looking_span(g) } else { rand_span(g) },
+                parent: if g.chance(1, 3) {
+                    Some(if looks { decimal_looking_span(g) } else { rand_span(g) })
+                } else {
+                    None
                 },
+                form,
             };
         }
         if !self.cfg.traceparent && !top && g.chance(self.p.p_plain, 16) {
@@ -552,7 +718,7 @@ impl<'a> Gen<'a> {
         }
     }
 
-    fn steps(&mut self, depth: u32, is_async: bool, top: bool) -> Vec<Step> {
+    fn steps(&mut self, depth: u32, is_async: bool, top: bool, takes_deferred: bool) -> Vec<Step> {
         let mut steps = Vec::new();
         let fan = if depth >= self.cfg.max_depth || self.budget == 0 {
             0
@@ -579,7 +745,7 @@ impl<'a> Gen<'a> {
                 let n = (2 + self.g.below((left - 1) as u64) as u32).min(self.budget);
                 left -= n;
                 self.budget -= n;
-                let nodes = (0..n).map(|_| self.node(depth + 1, true)).collect();
+                let nodes = (0..n).map(|_| self.node(depth + 1, true, false)).collect();
                 steps.push(Step::Group {
                     nodes,
                     sched: self.g.next(),
@@ -587,8 +753,18 @@ impl<'a> Gen<'a> {
             } else {
                 left -= 1;
                 self.budget -= 1;
+                if self.cfg.traceparent && self.g.chance(self.p.p_catch, 16) {
+                    let node = self.panic_chain(depth + 1);
+                    steps.push(Step::Child { node, via: Via::Catch });
+                    continue;
+                }
                 let via = self.via(top);
-                let node = self.node(depth + 1, false);
+                let node = self.node(depth + 1, false, !top && takes_deferred && via == Via::Direct);
+                // a `new_span!` frame that travels is entered from right here
+                let via = match &node.variant {
+                    Variant::Manual { travel, .. } if *travel != Travel::Here => Via::Direct,
+                    _ => via,
+                };
                 steps.push(Step::Child { node, via });
             }
         }
@@ -620,6 +796,8 @@ pub fn gen_tree(g: &mut Rng, cfg: &GenCfg) -> Node {
         p_deeper: *g.pick(if dense { &[14u64, 16, 16, 16] } else { &[8u64, 11, 14, 16] }),
         // (not drawn for the trace-context generator, whose trees stay what they were)
         p_plain: if cfg.traceparent { 0 } else { *g.pick(&[0u64, 2, 4]) },
+        p_ending: *g.pick(&[0u64, 3, 5, 8]),
+        p_catch: if cfg.traceparent { *g.pick(&[0u64, 2, 3, 5]) } else { 0 },
     };
     let budget = 1 + g.below(cfg.max_nodes as u64) as u32;
     let mut gen = Gen {
@@ -630,13 +808,14 @@ pub fn gen_tree(g: &mut Rng, cfg: &GenCfg) -> Node {
         next_eid: 0,
         budget,
     };
-    let steps = gen.steps(0, false, true);
+    let steps = gen.steps(0, false, true, false);
     Node {
         id: TOP,
         enabled: false,
         is_async: false,
         variant: Variant::Top,
         steps,
+        unwinds: false,
     }
 }
 
@@ -665,6 +844,10 @@ pub enum Point {
     /// pushed incoming frame, right before / after the child.
     HopIn(u16),
     HopOut(u16),
+    /// Logged under the id of a `Travel::Deferred` node: right before / after its frame is entered,
+    /// i.e. after the span it was created in has ended, in whatever context that span was run from.
+    BeforeDeferred,
+    AfterDeferred,
 }
 
 #[derive(Clone, Debug)]
@@ -693,6 +876,8 @@ pub struct TreeCxInner {
     pub sampler_table: Vec<bool>,
     pub sampler_log: Mutex<Vec<SamplerCall>>,
     pub problems: Mutex<Vec<String>>,
+    /// (node, step) -> did the child run under `catch_unwind` panic
+    pub caught: Mutex<Vec<(u32, u16, bool)>>,
 }
 
 /// The harness-side context of one tree run.
@@ -709,6 +894,7 @@ impl TreeCx {
             sampler_table,
             sampler_log: Mutex::new(Vec::new()),
             problems: Mutex::new(Vec::new()),
+            caught: Mutex::new(Vec::new()),
         }))
     }
 
@@ -828,6 +1014,10 @@ pub trait Env: 'static {
 
     /// `Frame::push(ctxt, ("plain", 1)).in_fn(f)`, boxed: a non-span frame with props of its own.
     fn in_plain_frame<'a>(f: Box<dyn FnOnce() + Send + 'a>) -> Box<dyn FnOnce() + Send + 'a>;
+
+    /// Create the `new_span!` pair of `node` here and run its body on a new thread inside
+    /// `frame.in_fn(..)` (the guard travels with it).
+    fn manual_on_thread(node: &Node, cx: &TreeCx);
 }
 
 /// Declare an [`Env`]: `impl_env!(Name, "label", traceparent?, [E, F, C, T, R], rt_expr);`
@@ -851,6 +1041,15 @@ macro_rules! impl_env {
             }
             fn in_plain_frame<'a>(f: Box<dyn FnOnce() + Send + 'a>) -> Box<dyn FnOnce() + Send + 'a> {
                 Box::new(emit::Frame::push(Self::rt().ctxt(), ("plain", 1)).in_fn(f))
+            }
+            fn manual_on_thread(node: &$crate::spantree::Node, cx: &$crate::spantree::TreeCx) {
+                let (guard, frame) = $crate::spantree::new_manual::<Self>(node);
+                let f = frame.in_fn(move || $crate::spantree::with_tree(cx, || $crate::spantree::manual_body::<Self, _>(guard, node, cx)));
+                std::thread::scope(|s| {
+                    if let Err(p) = s.spawn(f).join() {
+                        std::panic::resume_unwind(p);
+                    }
+                });
             }
         }
     };
@@ -1056,12 +1255,151 @@ async fn span_async_tid<X: Env>(id: u32, en: bool, tid: TraceId, node: &Node, cx
     body_async::<X>(node, cx).await
 }
 
+#[derive(Debug)]
+pub struct NodeErr;
+
+impl std::fmt::Display for NodeErr {
+    fn fmt(&self, f: &mut std::fmt::Formatter) -> std::fmt::Result {
+        f.write_str("scripted failure")
+    }
+}
+
+impl std::error::Error for NodeErr {}
+
+#[emit::span(rt: *X::rt(), ok_lvl: emit::Level::Info, err_lvl: "warn", "node {id}", id, en)]
+fn span_sync_result<X: Env>(id: u32, en: bool, fail: bool, node: &Node, cx: &TreeCx) -> Result<(), NodeErr> {
+    body_sync::<X>(node, cx);
+    if fail {
+        return Err(NodeErr);
+    }
+    Ok(())
+}
+
+#[emit::span(rt: *X::rt(), ok_lvl: emit::Level::Info, err_lvl: "warn", "node {id}", id, en)]
+async fn span_async_result<X: Env>(id: u32, en: bool, fail: bool, node: &Node, cx: &TreeCx) -> Result<(), NodeErr> {
+    body_async::<X>(node, cx).await;
+    if fail {
+        Err(NodeErr)?;
+    }
+    Ok(())
+}
+
+#[emit::span(rt: *X::rt(), guard: g, "node {id}", id, en)]
+fn span_sync_guard<X: Env>(id: u32, en: bool, end: &GuardEnd, node: &Node, cx: &TreeCx) {
+    body_sync::<X>(node, cx);
+    match end {
+        GuardEnd::Complete => {
+            g.complete();
+        }
+        GuardEnd::CompleteWith => {
+            g.complete_with(emit::span::completion::default(X::rt().emitter(), X::rt().ctxt()));
+        }
+    }
+}
+
+#[emit::span(rt: *X::rt(), guard: g, "node {id}", id, en)]
+async fn span_async_guard<X: Env>(id: u32, en: bool, end: &GuardEnd, node: &Node, cx: &TreeCx) {
+    body_async::<X>(node, cx).await;
+    match end {
+        GuardEnd::Complete => {
+            g.complete();
+        }
+        GuardEnd::CompleteWith => {
+            g.complete_with(emit::span::completion::default(X::rt().emitter(), X::rt().ctxt()));
+        }
+    }
+}
+
+// --- `new_span!` pairs whose frame is entered away from where it was created -------
+
+/// `emit::new_span!` for a `Variant::Manual` node, evaluated right here.
+pub fn new_manual<X: Env>(
+    node: &Node,
+) -> (
+    emit::span::SpanGuard<'static, &'static X::T, emit::Empty, impl emit::span::Completion + 'static>,
+    Frame<&'static X::C>,
+) {
+    let (id, en) = (node.id, node.enabled);
+    match &node.variant {
+        Variant::Manual { when: true, .. } => {
+            emit::new_span!(rt: *X::rt(), when: emit::filter::from_fn(move |_| en), "node {id}", id)
+        }
+        _ => emit::new_span!(rt: *X::rt(), "node {id}", id, en),
+    }
+}
+
+/// What runs inside the frame of a manual pair: start, body, end.
+pub fn manual_body<X: Env, S: emit::span::Completion>(
+    mut guard: emit::span::SpanGuard<'static, &'static X::T, emit::Empty, S>,
+    node: &Node,
+    cx: &TreeCx,
+) {
+    guard.start();
+    if node.is_async {
+        block_on(body_async::<X>(node, cx));
+    } else {
+        body_sync::<X>(node, cx);
+    }
+    end_manual::<X, S>(guard, node);
+}
+
+fn end_manual<X: Env, S: emit::span::Completion>(guard: emit::span::SpanGuard<'static, &'static X::T, emit::Empty, S>, node: &Node) {
+    match &node.variant {
+        Variant::Manual { complete_with: true, .. } => {
+            guard.complete_with(emit::span::completion::default(X::rt().emitter(), X::rt().ctxt()));
+        }
+        _ => drop(guard),
+    }
+}
+
+type DeferredFn = Box<dyn for<'x> FnOnce(&'x Node, &'x TreeCx)>;
+
+thread_local! {
+    /// `Travel::Deferred` pairs created by the body that is running on this thread, by node id.
+    static DEFERRED: RefCell<Vec<(u32, DeferredFn)>> = const { RefCell::new(Vec::new()) };
+}
+
+fn defer_manual<X: Env>(node: &Node) {
+    let (guard, frame) = new_manual::<X>(node);
+    let run: DeferredFn = Box::new(move |node, cx| frame.call(move || manual_body::<X, _>(guard, node, cx)));
+    DEFERRED.with(|d| d.borrow_mut().push((node.id, run)));
+}
+
+/// Enter the deferred frames created inside `parent`'s body, now that `parent` has ended.
+fn run_deferred<X: Env>(parent: &Node, cx: &TreeCx) {
+    for child in parent.children() {
+        if !matches!(
+            child.variant,
+            Variant::Manual {
+                travel: Travel::Deferred,
+                ..
+            }
+        ) {
+            continue;
+        }
+        let found = DEFERRED.with(|d| {
+            let mut d = d.borrow_mut();
+            d.iter().position(|(id, _)| *id == child.id).map(|p| d.remove(p).1)
+        });
+        match found {
+            Some(run) => {
+                observe::<X>(cx, child.id, Point::BeforeDeferred);
+                run(child, cx);
+                observe::<X>(cx, child.id, Point::AfterDeferred);
+            }
+            // (the parent's body unwound before it got there)
+            None => {}
+        }
+    }
+}
+
 /// Run a node to completion on this thread (async nodes under a nested `block_on`).
 pub fn run_node<X: Env>(node: &Node, cx: &TreeCx) {
     if node.is_async {
         block_on(run_async::<X>(node, cx))
     } else {
-        run_sync::<X>(node, cx)
+        run_sync::<X>(node, cx);
+        run_deferred::<X>(node, cx);
     }
 }
 
@@ -1077,12 +1415,44 @@ fn run_sync<X: Env>(node: &Node, cx: &TreeCx) {
             node,
             cx,
         ),
+        Variant::ResultAware { fail } => {
+            let _ = span_sync_result::<X>(node.id, node.enabled, *fail, node, cx);
+        }
+        Variant::Guard(end) => span_sync_guard::<X>(node.id, node.enabled, end, node, cx),
+        Variant::Manual { travel, .. } => match travel {
+            Travel::Here | Travel::Task => {
+                let (guard, frame) = new_manual::<X>(node);
+                frame.call(move || manual_body::<X, _>(guard, node, cx))
+            }
+            Travel::Thread => X::manual_on_thread(node, cx),
+            // entered by whoever ran the parent, once the parent has ended (`run_deferred`)
+            Travel::Deferred => defer_manual::<X>(node),
+        },
     }
 }
 
 fn run_async<'a, X: Env>(node: &'a Node, cx: &'a TreeCx) -> BoxFut<'a> {
+    // a task made from a `new_span!` pair: created now, polled whenever the caller gets to it
+    if let Variant::Manual { travel: Travel::Task, .. } = &node.variant {
+        let (mut guard, frame) = new_manual::<X>(node);
+        let task = frame.in_future(async move {
+            guard.start();
+            body_async::<X>(node, cx).await;
+            end_manual::<X, _>(guard, node);
+        });
+        return Box::pin(async move {
+            task.await;
+            run_deferred::<X>(node, cx);
+        });
+    }
     Box::pin(async move {
         match &node.variant {
+            Variant::ResultAware { fail } => {
+                let _ = span_async_result::<X>(node.id, node.enabled, *fail, node, cx).await;
+            }
+            Variant::Guard(end) => span_async_guard::<X>(node.id, node.enabled, end, node, cx).await,
+            // (their bodies run under a nested `block_on` inside the frame)
+            Variant::Manual { .. } => run_sync::<X>(node, cx),
             Variant::Top => body_async::<X>(node, cx).await,
             Variant::When => span_async_when::<X>(node.id, node.enabled, node, cx).await,
             Variant::RtFilter => span_async_rt::<X>(node.id, node.enabled, node, cx).await,
@@ -1097,6 +1467,7 @@ fn run_async<'a, X: Env>(node: &'a Node, cx: &'a TreeCx) -> BoxFut<'a> {
                 .await
             }
         }
+        run_deferred::<X>(node, cx);
     })
 }
 
@@ -1105,7 +1476,10 @@ fn run_any_async<'a, X: Env>(node: &'a Node, cx: &'a TreeCx) -> BoxFut<'a> {
     if node.is_async {
         run_async::<X>(node, cx)
     } else {
-        Box::pin(async move { run_sync::<X>(node, cx) })
+        Box::pin(async move {
+            run_sync::<X>(node, cx);
+            run_deferred::<X>(node, cx);
+        })
     }
 }
 
@@ -1113,28 +1487,30 @@ fn emit_event<X: Env>(eid: u32) {
     emit::info!(rt: *X::rt(), "event {eid}", eid);
 }
 
-fn push_props<X: Env>(trace: u128, span: u64, form: &IdForm) -> Frame<&'static X::C> {
+fn push_props<X: Env>(trace: u128, span: u64, parent: Option<u64>, form: &IdForm) -> Frame<&'static X::C> {
     let ctxt = X::rt().ctxt();
     match form {
         IdForm::Typed => {
             let trace_id = TraceId::from_u128(trace).expect("non-zero");
             let span_id = SpanId::from_u64(span).expect("non-zero");
-            Frame::push(ctxt, emit::props! { trace_id, span_id })
+            let span_parent = parent.and_then(SpanId::from_u64);
+            Frame::push(ctxt, emit::props! { trace_id, span_id, span_parent })
         }
         IdForm::HexLower => {
-            let (t, s) = (format!("{:032x}", trace), format!("{:016x}", span));
-            let (trace_id, span_id): (&str, &str) = (&t, &s);
-            Frame::push(ctxt, emit::props! { trace_id, span_id })
+            let (t, s, p) = (format!("{:032x}", trace), format!("{:016x}", span), parent.map(|p| format!("{:016x}", p)));
+            let (trace_id, span_id, span_parent): (&str, &str, Option<&str>) = (&t, &s, p.as_deref());
+            Frame::push(ctxt, emit::props! { trace_id, span_id, span_parent })
         }
         IdForm::HexUpper => {
-            let (t, s) = (format!("{:032X}", trace), format!("{:016X}", span));
-            let (trace_id, span_id): (&str, &str) = (&t, &s);
-            Frame::push(ctxt, emit::props! { trace_id, span_id })
+            let (t, s, p) = (format!("{:032X}", trace), format!("{:016X}", span), parent.map(|p| format!("{:016X}", p)));
+            let (trace_id, span_id, span_parent): (&str, &str, Option<&str>) = (&t, &s, p.as_deref());
+            Frame::push(ctxt, emit::props! { trace_id, span_id, span_parent })
         }
         IdForm::Int => {
             let trace_id = trace;
             let span_id = span;
-            Frame::push(ctxt, emit::props! { trace_id, span_id })
+            let span_parent = parent;
+            Frame::push(ctxt, emit::props! { trace_id, span_id, span_parent })
         }
     }
 }
@@ -1256,8 +1632,12 @@ fn run_via_blocking<X: Env>(parent: u32, i: u16, child: &Node, via: &Via, cx: &T
                 });
             }
         },
-        Via::Props { trace, span, form } => {
-            push_props::<X>(*trace, *span, form).call(|| {
+        Via::Catch => {
+            let r = vcommon::catch(|| run_node::<X>(child, cx));
+            cx.0.caught.lock().unwrap().push((parent, i, r.is_err()));
+        }
+        Via::Props { trace, span, parent: p, form } => {
+            push_props::<X>(*trace, *span, *p, form).call(|| {
                 observe::<X>(cx, parent, Point::ViaIn(i));
                 run_node::<X>(child, cx);
                 observe::<X>(cx, parent, Point::ViaOut(i));
@@ -1355,6 +1735,7 @@ fn body_sync<X: Env>(node: &Node, cx: &TreeCx) {
         let i = i as u16;
         match step {
             Step::Event(eid) => emit_event::<X>(*eid),
+            Step::Panic => panic!("spantree: scripted panic in node {}", node.id),
             Step::Yield => {}
             Step::Child { node: child, via } => {
                 observe::<X>(cx, node.id, Point::Before(i));
@@ -1382,6 +1763,7 @@ async fn body_async<X: Env>(node: &Node, cx: &TreeCx) {
         let i = i as u16;
         match step {
             Step::Event(eid) => emit_event::<X>(*eid),
+            Step::Panic => panic!("spantree: scripted panic in node {}", node.id),
             Step::Yield => {
                 YieldNow::new().await;
                 observe::<X>(cx, node.id, Point::Resume(i));
@@ -1400,8 +1782,8 @@ async fn body_async<X: Env>(node: &Node, cx: &TreeCx) {
                             })
                             .await
                     }
-                    Via::Props { trace, span, form } => {
-                        push_props::<X>(*trace, *span, form)
+                    Via::Props { trace, span, parent: p, form } => {
+                        push_props::<X>(*trace, *span, *p, form)
                             .in_future(async {
                                 observe::<X>(cx, node.id, Point::ViaIn(i));
                                 run_any_async::<X>(child, cx).await;
@@ -1418,7 +1800,7 @@ async fn body_async<X: Env>(node: &Node, cx: &TreeCx) {
                             })
                             .await
                     }
-                    Via::Thread | Via::Remote | Via::TraceOnly { .. } | Via::Plain { .. } => {
+                    Via::Thread | Via::Remote | Via::TraceOnly { .. } | Via::Plain { .. } | Via::Catch => {
                         run_via_blocking::<X>(node.id, i, child, via, cx)
                     }
                 }
@@ -1451,6 +1833,7 @@ pub struct TreeRun {
     pub polls: Vec<(u32, u16, Vec<u8>)>,
     pub sampler_log: Vec<SamplerCall>,
     pub problems: Vec<String>,
+    pub caught: Vec<(u32, u16, bool)>,
     /// panic message if the interpreter (i.e. the code under test) panicked
     pub panicked: Option<String>,
     pub main_thread: u64,
@@ -1482,6 +1865,7 @@ pub fn run_tree<X: Env>(top: &Node, sampler_table: Vec<bool>) -> TreeRun {
         polls: std::mem::take(&mut *inner.polls.lock().unwrap()),
         sampler_log: std::mem::take(&mut *inner.sampler_log.lock().unwrap()),
         problems: std::mem::take(&mut *inner.problems.lock().unwrap()),
+        caught: std::mem::take(&mut *inner.caught.lock().unwrap()),
         panicked,
         main_thread,
     };
